@@ -118,7 +118,7 @@ def check(prop, tier, seed):
         else:
             try:
                 mod = source.module(relpath, REPO)
-                node = mod.func(qual)
+                node = mod.func(qual.split("~")[0])
                 finfo["sha256"] = source.func_digest(node)
                 finfo["lines"] = [node.lineno, node.end_lineno]
             except Exception as ex:
